@@ -6,8 +6,8 @@ EXTENDS Naturals, Sequences, TLC, Json, IOUtils
 
 MaxHistC == atoi(IOEnv.MAXHIST)
 SourcesC == {"valid", "macros", "syms", "table", "map", "map2", "high", "incbinA", "ipsA", "incA", "incfail",
-             "failscan", "failparse", "failexpand", "faillabel", "failemit", "tableB", "fileA", "fileB", "fileFail", "scopeconst", "highbr"}
-ProbesC  == {"p_plain", "p_usesmacro", "p_usessym", "p_text", "p_bank", "p_incbinB", "p_ipsB", "p_map", "p_incB", "p_tableC", "p_fileA", "p_fileC", "p_fileD", "p_usesscope", "p_lowbr", "p_incbinDash"}
+             "failscan", "failparse", "failexpand", "faillabel", "failemit", "tableB", "fileA", "fileB", "fileFail", "scopeconst", "highbr", "positions"}
+ProbesC  == {"p_plain", "p_usesmacro", "p_usessym", "p_text", "p_bank", "p_incbinB", "p_ipsB", "p_map", "p_incB", "p_tableC", "p_fileA", "p_fileC", "p_fileD", "p_usesscope", "p_lowbr", "p_incbinDash", "p_map64", "p_tableDup"}
 ResultC  == [s \in SourcesC \cup ProbesC |-> <<"result-of", s>>]
 
 VARIABLES g, hist, last
